@@ -6,7 +6,7 @@ import time
 from .. import vlib
 from ..vlib import Inconclusive
 
-RULE = ("every history of 4 (thorough: 5) messages of one type (requests decoded by the server: Twalk, Twalkgetattr, Twrite, Tlcreate, Tread; "
+RULE = ("every history of 4 (thorough: 5) messages of one type (requests decoded by the server: Twalk, Twalkgetattr, Twrite, Tlcreate, Tread, Tsetattr (bit sets and scalars); "
         "replies decoded by the p9 client: Rreaddir, Rwalk, Rread, the xattr list, Rreadlink - there what every call returned is compared "
         "with its own reply when it returns and again after every later message of the history) with list / string / "
         "payload lengths from {0, 1, 3} on two connections sharing the process-wide message cache and the buffer pools (long then "
@@ -25,7 +25,7 @@ def run(tier, seed):
     with vlib.Scratch(prop) as s:
         out = os.path.join(s, "vec.ndjson")
         n = 4 if tier == "quick" else 5
-        cfg = "\n".join(["SPECIFICATION Spec", "CONSTANTS", '  Types = {"Twalk", "Twalkgetattr", "Twrite", "Tlcreate", "Tread", "Rreaddir", "Rwalk", "Rread", "Rxattrlist", "Rreadlink"}',
+        cfg = "\n".join(["SPECIFICATION Spec", "CONSTANTS", '  Types = {"Twalk", "Twalkgetattr", "Twrite", "Tlcreate", "Tread", "Tsetattr", "Rreaddir", "Rwalk", "Rread", "Rxattrlist", "Rreadlink"}',
                          "  Lens = {0, 1, 3}", "  Conns = {1, 2}", "  MaxLen = %d" % n, "CHECK_DEADLOCK FALSE",
                          "INVARIANTS NoCarryOver Dump", ""])
         r = vlib.run_tlc(s, "MC_MsgCache", cfg, workers=1, env={"GEN_OUT": out}, name="msgcache", timeout=1500)
